@@ -91,6 +91,15 @@ func (a *adapterBase) Begin(cfg AdapterConfig, cb ProgressCallback) error {
 	for i := 0; i < maxConcurrency; i++ {
 		ctx, err := a.transferImpl.WorkerStarting(i)
 		if err != nil {
+			// Leave nothing behind for a later Begin() or End(): the
+			// workers that did start end with the job channel, the
+			// others will never run.
+			close(a.jobChan)
+			if i == 0 {
+				a.authWait.Done()
+			}
+			a.workerWait.Add(i - maxConcurrency)
+			a.workerWait.Wait()
 			return err
 		}
 		go a.worker(i, ctx)
